@@ -539,7 +539,12 @@ def gen_history(rng, profile, faults=False, sweep=False, hostile=False, reuse=Fa
                 depth = 0
                 out_t = info.get("out") or ["X"]
                 top = out_t[-1] if out_t else "X"
-                if top == "E" and rng.random() < 0.4:
+                if top in ("AB", "A", "Y", "U") and rng.random() < 0.7:
+                    text2, info2 = rng.choice({"AB": ["attribute", "attribute label", "code", "offset", "entry", "label", "?haschildren", "attribute form"],
+                                               "A": ["value", "label", "form", "\"%s\"", "?AT_name", "raw value"],
+                                               "Y": ["name", "label", "address", "size", "binding", "visibility", "\"%s\""],
+                                               "U": ["root", "entry offset", "offset", "version", "abbrev entry", "\"%s\""]}[top]), {"out": ["X"]}
+                elif top == "E" and rng.random() < 0.4:
                     text2, info2 = rng.choice(["root offset", "parent offset", "root", "parent", "root \"%s\"", "?root offset",
                                                "parent ?root offset", "parent \"%s\"", "root child offset", "dup root (== )" if False else "root label"]), {"out": ["X"]}
                 elif top == "D" and rng.random() < 0.4:
@@ -548,7 +553,8 @@ def gen_history(rng, profile, faults=False, sweep=False, hostile=False, reuse=Fa
                 else:
                   text2, info2 = choose_program(rng, [top] if top in ("I", "S", "Q", "QS", "QQ", "E", "A", "U", "D")
                                               else [], top in ("E", "A", "U", "D"), bombs=False) \
-                    if top not in ("X", "B") else (rng.choice(["dup", "type", "\"%s\"", "[dup]", "apply", "elem", "child", "value",
+                    if top not in ("X", "B") else (rng.choice(["dup", "type", "\"%s\"", "[dup]", "apply", "elem", "child", "value", "attribute", "attribute label",
+                                                               "entry", "label", "offset", "name", "root", "parent", "length", "address",
                                                                "apply", "(|F| 5 F)", "(|F| (1, 2) F)", "5 swap apply",
                                                                "(|F| F)", "dup apply"]), {"out": ["X"]})
                 q2 = b.q()
@@ -727,6 +733,10 @@ def gen_mustfail(rng, profile="C14"):
     plan["knobs"]["fresh_voc"] = 1
     i = b.i()
     b.setup.append(P.step(0, "MKIN", i))
+    if rng.random() < 0.3:
+        # vocabularies put together the wrong way: an error, not an abort
+        b.setup.append(P.step(0, "VOC", 7, *rng.choice([("core", "core"), ("dw", "dw"), ("core", "dw", "core"),
+                                                         ("dw", "core", "dw"), ("core", "dw", "dw")])))
     nclients = rng.choice([1, 2, 2, 3])
     for c in range(nclients):
         b.scripts[c] = []
